@@ -910,6 +910,11 @@ class Unit:
                 close_impl()
                 src, it = self.repo.item(e[1], e[2])
                 text = self.apply_rewrites(src[it.start:it.end], '%s::%s' % (e[1], e[2]), None)
+                if it.kind == 'static':
+                    # R13: immutable table `pub static X: T = INIT;` -> `const X: T = INIT;` (contents visible to specs)
+                    text = re.sub(r'^(pub(\s*\([^)]*\))?\s+)?static\s+', 'const ', text, count=1)
+                    text = re.sub(r':\s*&\s*\[', ": &'static [", text, count=1)
+                    self.log.add('R13(static table -> const)', '%s::%s' % (e[1], e[2]))
                 if it.kind == 'struct':
                     # R1: tuple-struct fields pub so specs may mention self.0
                     text = re.sub(r'\((\s*)(?!pub)', r'(\1pub ', text, count=1) if re.match(r'(pub\s+)?struct\s+\w+(<[^>]*>)?\s*\(', text) else text
